@@ -561,6 +561,12 @@ func (x *c03) replay(path string) {
 			x.decCase(stream, parseSizes(kv(f, "cuts")), lim, kv(f, "end") == "err", parseAll(stream, lim))
 		case "huge":
 			x.hugePacket()
+		case "conc":
+			for i := 0; i < 5; i++ { // the schedule is not reproducible: a few runs of the same scenario
+				x.concurrent(parseScenario(f))
+			}
+		case "gated":
+			x.gatedIntact()
 		case "tcp":
 			stream := hx.Unhx(kv(f, "stream"))
 			lim := int64(hx.Atoi(kv(f, "lim")))
